@@ -24,7 +24,8 @@ run_demo() { local ok=0 bad=0; for i in 1 2 3; do timeout 300 $W/demo $ARGS >>$L
 build || { echo "clean build failed" | tee -a $LOG; exit 2; }
 compile_demo || { echo "demo compile failed (clean)" | tee -a $LOG; exit 2; }
 CLEAN=$(run_demo)
-git -C $W apply $D/patch.diff 2>/dev/null || git -C $W apply -3 $D/patch.diff || { echo "patch does not apply" | tee -a $LOG; exit 2; }
+P=$D/patch.diff; [ -f $D/patch-ported.diff ] && P=$D/patch-ported.diff
+git -C $W apply $P 2>/dev/null || git -C $W apply -3 $P || { echo "patch does not apply" | tee -a $LOG; exit 2; }
 build || { echo "patched build failed" | tee -a $LOG; exit 2; }
 compile_demo || { echo "demo compile failed (patched)" | tee -a $LOG; exit 2; }
 PATCHED=$(run_demo)
